@@ -365,8 +365,11 @@ impl<RW: QueueRW<T>, T> MultiQueue<RW, T> {
     }
 
     pub fn try_recv(&self, reader: &Reader) -> Result<T, (*const AtomicUsize, TryRecvError)> {
-        let mut ctail_attempt = reader.load_attempt(Relaxed);
+        // The consumer count is read before the position: a sibling consumer can take the position
+        // and leave between the two loads, and the unpinned read below is only sound when the
+        // position loaded is the one this (then only) consumer of the stream will commit
         let is_single = reader.is_single();
+        let mut ctail_attempt = reader.load_attempt(Relaxed);
         unsafe {
             loop {
                 let (ctail, wrap_valid_tag) = ctail_attempt.get();
